@@ -188,7 +188,7 @@ var bodyIdents = []string{"mock", "callInfo", "nil", "append", "panic"}
 // identifier the generated method has to resolve: the identifiers of the
 // method body, the reserved names, the qualifiers of the imported
 // packages and the names of the types which are written unqualified.
-func (m *MethodScope) resolveShadowing() {
+func (m *MethodScope) resolveShadowing() map[string]bool {
 	needed := make(map[string]bool)
 	for _, name := range bodyIdents {
 		needed[name] = true
@@ -217,6 +217,24 @@ func (m *MethodScope) resolveShadowing() {
 			name = v.Name + "MoqParam" + strconv.Itoa(n)
 		}
 		v.Name = name
+	}
+	return needed
+}
+
+// resolveFieldNameConflicts appends a number to variables whose field
+// name in the call record is already used by an earlier variable.
+func (m *MethodScope) resolveFieldNameConflicts(fieldName func(string) string, needed map[string]bool) {
+	fields := make(map[string]bool)
+	for _, v := range m.vars {
+		name := v.Name
+		for n := 2; fields[fieldName(name)]; n++ {
+			name = v.Name + strconv.Itoa(n)
+			if other, used := m.searchVar(name); (used && other != v) || needed[name] {
+				name = v.Name // taken, try the next number
+			}
+		}
+		v.Name = name
+		fields[fieldName(name)] = true
 	}
 }
 
